@@ -225,6 +225,12 @@ def c02(acc):
         mc_source(acc, 2, mode="cover", faults=False, name="MC_Source-cover")
     _, p = mc_reader(acc, 2 if q else 3, "cover" if q else "default", ["Inv_RefMatch"], name="MC_Reader-c02")
     replay_reader(acc, p, "chunks", extra=["--max-all-cuts", 9 if q else 12])
+    # "independent of the source type": the borrowing (slice) source against the same expectation
+    replay_reader(acc, p, "slice")
+    # every kind of white space (and form feed, which is none) under the trimming configurations, on every source type
+    _, pws = mc_reader(acc, 3 if q else 4, "cover", ["Inv_RefMatch"], frag="ws", name="MC_Reader-c02ws")
+    replay_reader(acc, pws, "slice")
+    replay_reader(acc, pws, "chunks", extra=["--max-all-cuts", 7, "--stride", 3 if q else 1])
     if not q:
         replay_reader(acc, p, "chunks", extra=["--max-all-cuts", 10], enc=True)
     # construct-focused spaces: the carries of the per-construct scanners (quote state, '?' flag, DOCTYPE balance, split terminators)
@@ -252,6 +258,8 @@ def c18(acc):
     _, p = mc_reader(acc, 2, "default" if q else "cover", ["Inv_RefMatch"], name="MC_Reader-c18")
     # (quick: two of the seven error kinds per fault point, rotating; thorough: all of them)
     replay_reader(acc, p, "faults", extra=[] if q else ["--all-kinds", 1])
+    # the encoding feature replaces the byte-order-mark step of the first refill by the encoding sniffer
+    replay_reader(acc, p, "faults", enc=True)
     # construct-focused spaces: a fault while a scanner carry (quote state, '?' flag, DOCTYPE balance, split terminator) is live
     for mode, k in (("doctype", 2 if q else 3), ("comment2", 3 if q else 5), ("cdata", 2 if q else 4), ("pi", 2 if q else 4), ("tag", 2 if q else 3)):
         mc_source(acc, k, faults=True, frag=mode, name="MC_Source-fault-" + mode)
@@ -338,8 +346,12 @@ def c16(acc):
     _, p4 = mc_ops(acc, 3, 0, 1, "trim", [], ["Inv_ReadRef", "Inv_SkipRef"], "MC_Ops-c16skip")
     replay_reader(acc, p4, "slice")
     replay_reader(acc, p4, "chunks", extra=["--max-all-cuts", 0, "--stride", 3 if q else 1])
-    _, p5 = mc_ops(acc, 2 if q else 3, 2, 0, "trim", ["tts", "tte", "eee", "cc", "helpers"], ["Inv_ReadRef"], "MC_Ops-c16flip")
+    # (L=3 with two toggles of five keys exhausts 8 GB: the thorough tier takes the longer documents with one toggle)
+    _, p5 = mc_ops(acc, 2 if q else 3, 2 if q else 1, 0, "trim", ["tts", "tte", "eee", "cc", "helpers"], ["Inv_ReadRef"], "MC_Ops-c16flip")
     replay_reader(acc, p5, "slice", extra=["--stride", 2 if q else 1])
+    if not q:
+        _, p5b = mc_ops(acc, 2, 2, 0, "trim", ["tts", "tte", "eee", "cc", "helpers"], ["Inv_ReadRef"], "MC_Ops-c16flip2")
+        replay_reader(acc, p5b, "slice")
     # the buffered and async sources implement the trims separately from the slice source
     replay_reader(acc, p, "chunks", extra=["--max-all-cuts", 7, "--stride", 5 if q else 2])
     trace_reader(acc, 400 if q else 4000, "doc,mut,corpus", "plain", sources="all", max_len=500 if q else 3000)
@@ -486,7 +498,7 @@ def c10(acc):
                 "upper hex and zero-padded spellings (run-length encoded; TLC evaluates ValidScalar on every code point) plus boundary spellings with output bytes. "
                 "non-trivial = strings containing '&' (and every swept code point)")
     acc.trusted = ["TLC", "harness/src/esc.rs", "feature escape-html off (five predefined entities)"]
-    for mode, n in (("general", 4 if q else 5), ("ref", 5 if q else 6)):      # (20 / 10 symbols: 3.4 M / 1.1 M strings in the thorough tier)
+    for mode, n in (("general", 4 if q else 5), ("ref", 5 if q else 6), ("name", 3 if q else 5)):      # (20 / 10 symbols: 3.4 M / 1.1 M strings in the thorough tier)
         cfg = f"""SPECIFICATION Spec
 CONSTANTS
   N = {n}
@@ -677,7 +689,7 @@ def c17(acc):
     return acc.finish()
 
 
-RT_TYPES = ["F01", "F02", "F03", "F04", "F05", "F07", "F08", "F11", "F15", "F16", "F17", "F18", "F19", "F20", "F22", "F23", "F24", "F25", "F26", "F27", "F28", "F29", "F30", "F31", "F32", "F33", "F34", "F35"]
+RT_TYPES = ["F01", "F02", "F03", "F04", "F05", "F07", "F08", "F11", "F15", "F16", "F17", "F18", "F19", "F20", "F22", "F23", "F24", "F25", "F26", "F27", "F28", "F29", "F30", "F31", "F32", "F33", "F34", "F35", "F36"]
 
 
 def mc_serde(acc, types, mode, name, timeout=2500):
@@ -786,8 +798,11 @@ def c14(acc):
     _, p = mc_serde(acc, RT_TYPES if not q else RT_TYPES[:10], "rt", "MC_Serde-c14")
     serde_replay(acc, p, "c14", "B:from_str vs from_reader under chunkings")
     # documents with comments, PIs, CDATA, DOCTYPE, references, truncation ... (valid and not): token soups and rewritten family documents
-    _, ps = mc_de(acc, "soup", 3 if q else 4, ["F02"], "MC_De-c14soup")
-    de_replay(acc, ps, "soup", "B:token soups: from_str vs from_reader (piece sizes 1,2,3,7)", extra=["--sizes", "1,2,3,7"])
+    # (4 tokens: root, an element the target skips, something ill-formed inside it: what the two entry points make of it must agree)
+    _, ps = mc_de(acc, "soup", 4, ["F02"], "MC_De-c14soup")
+    de_replay(acc, ps, "soup", "B:token soups: from_str vs from_reader (piece sizes 1,2,3,7)", extra=["--sizes", "1,3" if q else "1,2,3,7"])
+    if not q:
+        de_replay(acc, ps, "soup", "B:token soups, quick-xml built without overlapped-lists", extra=["--sizes", "1,3"], flavour="nool")
     _, pr = mc_de(acc, "rewrite", 1, ["F02", "F07", "F16"] if q else RT_TYPES, "MC_De-c14rw")
     de_replay(acc, pr, "rewrite", "B:rewritten family documents: from_str vs from_reader (piece sizes 1,2,3,7)", extra=["--sizes", "1,2,3,7"])
     _, prs = mc_de(acc, "rewriteS", 2, ["-"], "MC_De-c14rwS")
@@ -853,7 +868,7 @@ def c07(acc):
     de_replay(acc, pn, "soup", "B:content under xsi:nil x all target types", extra=sch)
     # the event-buffer limit (Deserializer::event_buffer_size) on documents whose list items are interleaved, also on two levels:
     # whatever the limit, a value or an error - never a panic (the error path of one access and the Drop of another cooperate)
-    _, pil = mc_de(acc, "interleave", 1, ["F22", "F23", "F26", "F29", "F33", "F34", "F35"], "MC_De-inter-c07")
+    _, pil = mc_de(acc, "interleave", 1, ["F22", "F23", "F26", "F29", "F33", "F34", "F35", "F36"], "MC_De-inter-c07")
     de_replay(acc, pil, "interleave", "B:interleaved list documents x every event-buffer limit: no panic")
     _, p2 = mc_de(acc, "rewrite", 1, ["F05", "F15", "F22"] if q else RT_TYPES, "MC_De-bases", timeout=3000)
     summ, viol, _ = harness(["de-mutate", "--file", p2, "--prop", acc.pid, "--out-dir", REPLAY_DIR, "--seed", SEED, "--per-doc", 3 if q else 20])
@@ -876,6 +891,10 @@ def c15(acc):
     de_replay(acc, p, "rewrite", "B:rewritten documents deserialize to the original value", extra=["--sizes", ""])
     # the deserializer's other build variant (feature overlapped-lists off) skips unknown subtrees with different code
     de_replay(acc, p, "rewrite", "B:the same with a quick-xml built without overlapped-lists", extra=["--sizes", ""], flavour="nool")
+    # ignored (unknown) siblings that declare namespaces, of every content shape: they never change whether `xsi:nil` applies to a known element
+    _, pns = mc_de(acc, "nilscope", 1, ["F02"], "MC_De-nilscope")
+    de_replay(acc, pns, "soup", "B:ignored siblings with namespace declarations x content shapes: xsi:nil judged in the scope of the known element")
+    de_replay(acc, pns, "soup", "B:the same with a quick-xml built without overlapped-lists", flavour="nool")
     # text runs under a CUSTOM entity resolver (from_str_with_resolver / with_resolver): references in the first and in later pieces of a run
     _, ptr = mc_de(acc, "textrunR", 4 if q else 5, ["F02"], "MC_De-textrunR")
     de_replay(acc, ptr, "soup", "B:text runs under a custom entity resolver: String target = the specification's text", extra=["--sizes", "2"])
@@ -895,7 +914,7 @@ def c20(acc):
                 "document deserialized without limit (must equal the value) and with event_buffer_size = 1..total+1: the value or TooManyEvents, TooManyEvents "
                 "whenever Held > limit, monotone in the limit. non-trivial = interleavings that need buffering")
     acc.trusted = SERDE_TRUST
-    _, p = mc_de(acc, "interleave", 1, ["F22", "F23", "F26", "F29", "F33", "F34", "F35"], "MC_De-inter")
+    _, p = mc_de(acc, "interleave", 1, ["F22", "F23", "F26", "F29", "F33", "F34", "F35", "F36"], "MC_De-inter")
     de_replay(acc, p, "interleave", "B:interleavings x buffer limits")
     return acc.finish()
 
